@@ -293,12 +293,16 @@ func genLayer(rng *rand.Rand, p *Program, dir, tag string, cfg genCfg) {
 	dir = trimDir(dir)
 	subs := []string{""}
 	if cfg.nested {
-		subs = append(subs, "sub/", "sub/deep/", "d"+p.Ext+"/")
+		subs = append(subs, "sub/", "sub/deep/", "d"+p.Ext+"/", ".hid/", "sub/.d/")
 	}
 	nfiles := 1 + rng.Intn(3)
 	files := make([]*PFile, nfiles)
 	for i := range files {
-		files[i] = &PFile{Path: dir + "/" + subs[rng.Intn(len(subs))] + fmt.Sprintf("f%d%s", i, p.Ext), Defs: []*Def{}}
+		dot := "" // "any names": hidden-looking files and directories are template files like all others
+		if rng.Intn(4) == 0 {
+			dot = "."
+		}
+		files[i] = &PFile{Path: dir + "/" + subs[rng.Intn(len(subs))] + fmt.Sprintf("%sf%d%s", dot, i, p.Ext), Defs: []*Def{}}
 	}
 	mk := func(name string) *Def {
 		d := &Def{Name: name}
